@@ -19,9 +19,10 @@ import (
 )
 
 type JoinStep struct {
-	Gap    int64 `json:"gap_ns"`           // pause before the write (ns, virtual or real)
-	Len    int   `json:"len"`              // unite: slice length; join: always 1
-	Resend bool  `json:"resend,omitempty"` // unite: send the previous slice object again
+	Gap    int64 `json:"gap_ns"`              // pause before the write (ns, virtual or real)
+	Len    int   `json:"len"`                 // unite: slice length; join: always 1
+	Resend bool  `json:"resend,omitempty"`    // unite: send the previous slice object again
+	Spare  int   `json:"spare_cap,omitempty"` // unite: the slice is cut out of a larger buffer: cap = len + spare
 }
 
 type JoinScenario struct {
@@ -241,7 +242,7 @@ func runJoin(sc JoinScenario, inBubble bool, rng *rand.Rand) *JoinTrace {
 				if sc.Disc != "unite" {
 					n = 1
 				}
-				payload = make([]int, n)
+				payload = make([]int, n, n+st.Spare)
 				for i := range payload {
 					payload[i] = next
 					next++
@@ -477,6 +478,20 @@ func judgeJoin(sc JoinScenario, tr *JoinTrace, inBubble bool) (fs []joinFinding,
 	}
 	if tr.ExtraOutput != "" {
 		add("C08", "output-before-release", "%s", tr.ExtraOutput)
+	}
+	if sc.NoCopy && sc.StopKind != "" && sc.StopBeforeRelease {
+		// the slice delivered before the stop/cancel was never released: nothing may follow it,
+		// least of all its own buffer again
+		for i := range tr.Out {
+			if i > sc.StopAfter && i > 0 {
+				shared := ""
+				if tr.Out[i].Ptr == tr.Out[sc.StopAfter].Ptr {
+					shared = " and it is the very buffer the consumer still holds"
+				}
+				add("C08", "output-after-unreleased", "no-copy mode: slice #%d %v was produced although slice #%d %v had been delivered before the %s and was never released%s", i, tr.Out[i].Data, sc.StopAfter, tr.Out[sc.StopAfter].Data, sc.StopKind, shared)
+				break
+			}
+		}
 	}
 	if !sc.NoCopy && tr.ProducerDone {
 		// retained copy-mode outputs share no memory with each other nor with input slices
@@ -791,6 +806,9 @@ func genJoinScenario(rng *rand.Rand, g joinGen) JoinScenario {
 	default:
 		sc.J = uint(2 + rng.IntN(7))
 	}
+	if !g.Real && rng.IntN(30) == 0 {
+		sc.J = uint(1025 + rng.IntN(3000)) // beyond any preallocation size a buffer might be capped at
+	}
 	if g.Real && sc.J > 16 {
 		sc.J = uint(2 + rng.IntN(7))
 	}
@@ -871,6 +889,12 @@ func genJoinScenario(rng *rand.Rand, g joinGen) JoinScenario {
 	if g.Real {
 		nSteps = 3 + rng.IntN(25)
 	}
+	if sc.J > 1024 {
+		nSteps = 3 + rng.IntN(14)
+		if sc.Disc != "unite" {
+			nSteps = int(sc.J) + rng.IntN(2*int(sc.J)) // join needs that many elements to fill a slice at all
+		}
+	}
 	pattern := rng.IntN(5)
 	if g.Trickle {
 		pattern = []int{1, 2, 4}[rng.IntN(3)]
@@ -926,12 +950,15 @@ func genJoinScenario(rng *rand.Rand, g joinGen) JoinScenario {
 			case 4:
 				st.Len = j * (2 + rng.IntN(3))
 			case 5:
-				st.Len = max(j-1, 0)
+				st.Len = max(j-1-rng.IntN(1+j/16), 0)
 			default:
 				st.Len = rng.IntN(j + 2)
 			}
 			if i > 0 && rng.IntN(12) == 0 {
 				st.Resend = true
+			}
+			if rng.IntN(6) == 0 { // a sub-slice of a larger reusable buffer: capacity beyond the length
+				st.Spare = 1 + rng.IntN(2*j+2)
 			}
 		}
 		if st.Gap < 0 {
